@@ -99,6 +99,16 @@ impl Buf {
         }
         Buf { raw, size }
     }
+    /// A buffer with arbitrary non-zero previous content: `LLFree::new` with FreeAll / AllocAll (and the tree
+    /// array in every mode but None) must initialise every word itself and not rely on zeroed memory.
+    fn dirty(size: usize, salt: u8) -> Self {
+        let b = Buf::new(size);
+        for i in 0..size {
+            let v = (i as u8).wrapping_mul(37).wrapping_add(salt) | 1;
+            unsafe { b.ptr().add(i).write_volatile(v) };
+        }
+        b
+    }
     fn ptr(&self) -> *mut u8 {
         unsafe { self.raw.add(GUARD) }
     }
@@ -292,7 +302,8 @@ impl Inst {
     fn create(cfg: &Cfg, init: Init) -> Result<llfree::Result<Inst>, String> {
         let classing = cfg.classing();
         let ms = LLFree::metadata_size(&classing, cfg.frames);
-        let (lower, trees, local) = (Buf::new(ms.lower), Buf::new(ms.trees), Buf::new(ms.local));
+        // the lower and trees buffers start with garbage (the local buffer must be zeroed: Locals::new relies on it)
+        let (lower, trees, local) = (Buf::dirty(ms.lower, 0x5b), Buf::dirty(ms.trees, 0xa7), Buf::new(ms.local));
         Self::over(cfg, init, lower, trees, local)
     }
     fn over(cfg: &Cfg, init: Init, lower: Buf, trees: Buf, local: Buf) -> Result<llfree::Result<Inst>, String> {
@@ -307,7 +318,7 @@ impl Inst {
     }
     /// copy of the lower buffer only, zeroed trees/locals, `Init::Recover`
     fn recover(&self, cfg: &Cfg) -> Result<llfree::Result<Inst>, String> {
-        Self::over(cfg, Init::Recover, Buf::copy_of(&self.lower), Buf::new(self.trees.size), Buf::new(self.local.size))
+        Self::over(cfg, Init::Recover, Buf::copy_of(&self.lower), Buf::dirty(self.trees.size, 0x3d), Buf::new(self.local.size))
     }
     fn guards(&self) -> Option<&'static str> {
         if !self.lower.guards_ok() {
